@@ -91,7 +91,7 @@ func genC15(x *Ctx) *c15Scen {
 	sc.ShortN = tp.G(64)
 	sc.Middleware = tp.Chance(350)
 	if sc.Middleware {
-		sc.MWKind = tp.G(4)
+		sc.MWKind = tp.G(5) // 4: buffers everything the chain writes and sends it after the chain returned
 	}
 	if tp.Chance(150) {
 		sc.NoProduces = true
@@ -174,6 +174,18 @@ func c15Exec(sc *c15Scen, mode, failAt int) *c15Obs {
 		// the documented adapter for net/http middlewares; a pass-through one
 		c.Filter(restful.HttpMiddlewareHandlerToFilter(func(next http.Handler) http.Handler {
 			return http.HandlerFunc(func(rw http.ResponseWriter, r *http.Request) {
+				if sc.MWKind == 4 {
+					// what an ETag or compression middleware does: hold the body back, send it when next is done
+					bw := &bufferingWriter{hdr: rw.Header()}
+					next.ServeHTTP(bw, r)
+					if bw.status != 0 {
+						rw.WriteHeader(bw.status)
+					}
+					if len(bw.buf) > 0 {
+						rw.Write(bw.buf)
+					}
+					return
+				}
 				if sc.MWKind&1 != 0 {
 					rw = &c15PassWriter{rw} // what a metrics or timeout middleware does
 				}
@@ -336,6 +348,12 @@ func runC15(x *Ctx) {
 		}
 		if o.status != o.hStatus || o.length != o.hLength {
 			x.Violate("filter-sees-other-values", "%s: the handler reads status %d length %d, the trailing filter %d and %d", what, o.hStatus, o.hLength, o.status, o.length)
+		}
+		if st := o.w.Status(); sc.Middleware && sc.MWKind == 4 && (v.mode != sim.WFaultNone || st == 204 || st == 304 || (st >= 100 && st < 200)) {
+			// the buffering middleware sends the body after the handler's calls are over: a fault (or the
+			// writer refusing a body for this status) then hits the middleware's own write, which no call of
+			// the Response can report
+			continue
 		}
 		if sc.Nested && (o.oStatus != wantStatus || ((sc.Coding == "" || v.mode == sim.WFaultNone) && o.oLength != o.length)) {
 			x.Violate("status-bookkeeping", "%s: the filter of the outer container (the inner one is mounted with HandleWithFilter) reads status %d length %d from its Response, the inner filter %d and %d, the underlying writer received %v", what, o.oStatus, o.oLength, o.status, o.length, o.w.Statuses)
